@@ -232,6 +232,13 @@ fn check_stream_inner(c: &StreamCase) -> CaseResult {
     }
     let topn = TopNVoting::<Universal2DBox>::new(c.topn, c.max_distance, c.min_votes);
     let best = BestFitVoting::<Universal2DBox>::new(c.max_distance, c.min_votes);
+    // an engine object serves one stream after another: what it answered before (a stream with
+    // three times larger distances, hence a larger "largest distance seen") leaves no trace
+    if c.items.len() % 3 == 1 {
+        let decoy: Vec<ObservationMetricOk<Universal2DBox>> = to_stream(c, None).into_iter().map(|m| ObservationMetricOk::new(m.from, m.to, None, m.feature_distance.map(|d| d * 3.0 + 1.0))).collect();
+        let _ = topn.winners(decoy.clone());
+        let _ = best.winners(decoy);
+    }
     let r_top = topn.winners(to_stream(c, None));
     let r_best = best.winners(to_stream(c, None));
     check_topn_result(c, &claims, &r_top)?;
